@@ -603,7 +603,7 @@ Xfer(tw, wl, cm, fca) ==
          }
          else if (ip[self] > Len(Prog[self])) { ip[self] := 1; }
          else if (CurOp(self).op = "lock") { ip[self] := ip[self] + 1; sleeps[self] := 0; inlock[self] := TRUE; call mu_lock(CurOp(self).lt); }
-         else if (CurOp(self).op = "trylock") { ip[self] := ip[self] + 1; call mu_trylock(CurOp(self).lt); }
+         else if (CurOp(self).op = "trylock") { ip[self] := ip[self] + 1; picked[self] := FALSE; call mu_trylock(CurOp(self).lt); }
          else if (CurOp(self).op = "unlock") { ip[self] := ip[self] + 1; held[self] := 0; call mu_unlock(CurOp(self).lt, FALSE); }
          else if (CurOp(self).op = "unlockww") { ip[self] := ip[self] + 1; held[self] := 0; call mu_unlock(1, TRUE); }
          else if (CurOp(self).op = "get") { ip[self] := ip[self] + 1; }                    \* client reads a cell (matters to the race detector only)
@@ -611,15 +611,15 @@ Xfer(tw, wl, cm, fca) ==
          else if (CurOp(self).op = "set") { ip[self] := ip[self] + 1; data[CurOp(self).v] := CurOp(self).x; }
          else if (CurOp(self).op = "skipunless") {                                 \* after trylock
            ip[self] := IF ret[self] # 1 THEN ip[self] + 1 + CurOp(self).skip ELSE ip[self] + 1; }
-         else if (CurOp(self).op = "muwait") { ip[self] := ip[self] + 1; call mu_wait(CurOp(self).c, CurOp(self).dl, CurOp(self).cn); }
+         else if (CurOp(self).op = "muwait") { ip[self] := ip[self] + 1; picked[self] := FALSE; call mu_wait(CurOp(self).c, CurOp(self).dl, CurOp(self).cn); }
          else if (CurOp(self).op = "cvwait") { ip[self] := ip[self] + 1; GetWaiter(); call cv_wait(CurOp(self).dl, CurOp(self).cn, CurOp(self).x = 9); }
          else if (CurOp(self).op = "cvloop") {                                     \* while (!cell) cv_wait; gives up on timeout/cancel
            if (data[CurOp(self).v] = 0 /\ ret[self] \notin {ETIMEDOUT, ECANCELED}) { GetWaiter(); call cv_wait(CurOp(self).dl, CurOp(self).cn, CurOp(self).x = 9); }
            else { ip[self] := ip[self] + 1; ret[self] := -1; };
          }
-         else if (CurOp(self).op = "waitn") { ip[self] := ip[self] + 1; call wait_n(CurOp(self).dl, CurOp(self).cn); }
+         else if (CurOp(self).op = "waitn") { ip[self] := ip[self] + 1; picked[self] := FALSE; call wait_n(CurOp(self).dl, CurOp(self).cn); }
          else if (CurOp(self).op = "waitnloop") {
-           if (data[CurOp(self).v] = 0 /\ ret[self] # 1) { call wait_n(CurOp(self).dl, FALSE); }
+           if (data[CurOp(self).v] = 0 /\ ret[self] # 1) { picked[self] := FALSE; call wait_n(CurOp(self).dl, FALSE); }
            else { ip[self] := ip[self] + 1; ret[self] := -1; };
          }
          else if (CurOp(self).op = "signal") { ip[self] := ip[self] + 1; call cv_wake(FALSE); }
@@ -635,7 +635,7 @@ Xfer(tw, wl, cm, fca) ==
            nreg2 := {};
          }
          else if (CurOp(self).op = "decref") {                                     \* C13: last := (--refs = 0), under the lock
-           ip[self] := ip[self] + 1;
+           ip[self] := ip[self] + 1; picked[self] := FALSE;
            ret[self] := IF refs = 1 THEN 1 ELSE 0; refs := refs - 1;
          }
          else if (CurOp(self).op = "freeiflast") { ip[self] := ip[self] + 1; if (ret[self] = 1) { muFreed := TRUE; }; }
@@ -4584,30 +4584,30 @@ c0(self) == /\ pc[self] = "c0"
                                   /\ UNCHANGED << mw, pool >>
                        /\ pc' = [pc EXCEPT ![self] = "Done"]
                        /\ UNCHANGED << nww2, nreg2, sem, data, note, nreg, 
-                                       held, ret, sleeps, inlock, ip, nalloc, 
-                                       muFreed, refs, stack, lt_m, old_m, 
-                                       lt_mu, old_mu, lt_mu_, ww, old_mu_, c, 
-                                       dl_, cn_, old_mu_w, lt_, first, out_, 
-                                       rc_, hadw, ata, so_, havel, all, old_c, 
-                                       tws, alr, rmq, dl, cn, gen, old_cv, 
-                                       lt_c, rc_c, so, out, ndl, wcn, old, wq, 
-                                       still2, cvr, dw, k, cdw, ck >>
+                                       held, ret, picked, sleeps, inlock, ip, 
+                                       nalloc, muFreed, refs, stack, lt_m, 
+                                       old_m, lt_mu, old_mu, lt_mu_, ww, 
+                                       old_mu_, c, dl_, cn_, old_mu_w, lt_, 
+                                       first, out_, rc_, hadw, ata, so_, havel, 
+                                       all, old_c, tws, alr, rmq, dl, cn, gen, 
+                                       old_cv, lt_c, rc_c, so, out, ndl, wcn, 
+                                       old, wq, still2, cvr, dw, k, cdw, ck >>
                   ELSE /\ IF ip[self] > Len(Prog[self])
                              THEN /\ ip' = [ip EXCEPT ![self] = 1]
                                   /\ pc' = [pc EXCEPT ![self] = "c0"]
                                   /\ UNCHANGED << nww2, nreg2, sem, data, note, 
-                                                  nreg, held, ret, sleeps, 
-                                                  inlock, mw, pool, nalloc, 
-                                                  muFreed, refs, stack, lt_m, 
-                                                  old_m, lt_mu, old_mu, lt_mu_, 
-                                                  ww, old_mu_, c, dl_, cn_, 
-                                                  old_mu_w, lt_, first, out_, 
-                                                  rc_, hadw, ata, so_, havel, 
-                                                  all, old_c, tws, alr, rmq, 
-                                                  dl, cn, gen, old_cv, lt_c, 
-                                                  rc_c, so, out, ndl, wcn, old, 
-                                                  wq, still2, cvr, dw, k, cdw, 
-                                                  ck >>
+                                                  nreg, held, ret, picked, 
+                                                  sleeps, inlock, mw, pool, 
+                                                  nalloc, muFreed, refs, stack, 
+                                                  lt_m, old_m, lt_mu, old_mu, 
+                                                  lt_mu_, ww, old_mu_, c, dl_, 
+                                                  cn_, old_mu_w, lt_, first, 
+                                                  out_, rc_, hadw, ata, so_, 
+                                                  havel, all, old_c, tws, alr, 
+                                                  rmq, dl, cn, gen, old_cv, 
+                                                  lt_c, rc_c, so, out, ndl, 
+                                                  wcn, old, wq, still2, cvr, 
+                                                  dw, k, cdw, ck >>
                              ELSE /\ IF CurOp(self).op = "lock"
                                         THEN /\ ip' = [ip EXCEPT ![self] = ip[self] + 1]
                                              /\ sleeps' = [sleeps EXCEPT ![self] = 0]
@@ -4622,8 +4622,8 @@ c0(self) == /\ pc[self] = "c0"
                                              /\ pc' = [pc EXCEPT ![self] = "lk_1_cas"]
                                              /\ UNCHANGED << nww2, nreg2, sem, 
                                                              data, note, nreg, 
-                                                             held, ret, mw, 
-                                                             pool, nalloc, 
+                                                             held, ret, picked, 
+                                                             mw, pool, nalloc, 
                                                              muFreed, refs, 
                                                              lt_mu, old_mu, 
                                                              lt_mu_, ww, 
@@ -4641,6 +4641,7 @@ c0(self) == /\ pc[self] = "c0"
                                                              k, cdw, ck >>
                                         ELSE /\ IF CurOp(self).op = "trylock"
                                                    THEN /\ ip' = [ip EXCEPT ![self] = ip[self] + 1]
+                                                        /\ picked' = [picked EXCEPT ![self] = FALSE]
                                                         /\ /\ lt_mu' = [lt_mu EXCEPT ![self] = CurOp(self).lt]
                                                            /\ stack' = [stack EXCEPT ![self] = << [ procedure |->  "mu_trylock",
                                                                                                     pc        |->  "c0",
@@ -4717,6 +4718,7 @@ c0(self) == /\ pc[self] = "c0"
                                                                                    note, 
                                                                                    nreg, 
                                                                                    ret, 
+                                                                                   picked, 
                                                                                    mw, 
                                                                                    pool, 
                                                                                    nalloc, 
@@ -4777,6 +4779,7 @@ c0(self) == /\ pc[self] = "c0"
                                                                                               note, 
                                                                                               nreg, 
                                                                                               ret, 
+                                                                                              picked, 
                                                                                               mw, 
                                                                                               pool, 
                                                                                               nalloc, 
@@ -4827,6 +4830,7 @@ c0(self) == /\ pc[self] = "c0"
                                                                                                          note, 
                                                                                                          nreg, 
                                                                                                          ret, 
+                                                                                                         picked, 
                                                                                                          mw, 
                                                                                                          pool, 
                                                                                                          nalloc, 
@@ -4879,6 +4883,7 @@ c0(self) == /\ pc[self] = "c0"
                                                                                                                     note, 
                                                                                                                     nreg, 
                                                                                                                     ret, 
+                                                                                                                    picked, 
                                                                                                                     mw, 
                                                                                                                     pool, 
                                                                                                                     nalloc, 
@@ -4930,6 +4935,7 @@ c0(self) == /\ pc[self] = "c0"
                                                                                                                                note, 
                                                                                                                                nreg, 
                                                                                                                                ret, 
+                                                                                                                               picked, 
                                                                                                                                mw, 
                                                                                                                                pool, 
                                                                                                                                nalloc, 
@@ -4980,6 +4986,7 @@ c0(self) == /\ pc[self] = "c0"
                                                                                                                                           note, 
                                                                                                                                           nreg, 
                                                                                                                                           ret, 
+                                                                                                                                          picked, 
                                                                                                                                           mw, 
                                                                                                                                           pool, 
                                                                                                                                           nalloc, 
@@ -5023,6 +5030,7 @@ c0(self) == /\ pc[self] = "c0"
                                                                                                                                           ck >>
                                                                                                                      ELSE /\ IF CurOp(self).op = "muwait"
                                                                                                                                 THEN /\ ip' = [ip EXCEPT ![self] = ip[self] + 1]
+                                                                                                                                     /\ picked' = [picked EXCEPT ![self] = FALSE]
                                                                                                                                      /\ /\ c' = [c EXCEPT ![self] = CurOp(self).c]
                                                                                                                                         /\ cn_' = [cn_ EXCEPT ![self] = CurOp(self).cn]
                                                                                                                                         /\ dl_' = [dl_ EXCEPT ![self] = CurOp(self).dl]
@@ -5125,6 +5133,7 @@ c0(self) == /\ pc[self] = "c0"
                                                                                                                                                                 note, 
                                                                                                                                                                 nreg, 
                                                                                                                                                                 ret, 
+                                                                                                                                                                picked, 
                                                                                                                                                                 muFreed, 
                                                                                                                                                                 refs, 
                                                                                                                                                                 all, 
@@ -5198,6 +5207,7 @@ c0(self) == /\ pc[self] = "c0"
                                                                                                                                                                            sem, 
                                                                                                                                                                            note, 
                                                                                                                                                                            nreg, 
+                                                                                                                                                                           picked, 
                                                                                                                                                                            muFreed, 
                                                                                                                                                                            refs, 
                                                                                                                                                                            all, 
@@ -5217,6 +5227,7 @@ c0(self) == /\ pc[self] = "c0"
                                                                                                                                                                            ck >>
                                                                                                                                                       ELSE /\ IF CurOp(self).op = "waitn"
                                                                                                                                                                  THEN /\ ip' = [ip EXCEPT ![self] = ip[self] + 1]
+                                                                                                                                                                      /\ picked' = [picked EXCEPT ![self] = FALSE]
                                                                                                                                                                       /\ /\ ndl' = [ndl EXCEPT ![self] = CurOp(self).dl]
                                                                                                                                                                          /\ stack' = [stack EXCEPT ![self] = << [ procedure |->  "wait_n",
                                                                                                                                                                                                                   pc        |->  "c0",
@@ -5252,7 +5263,8 @@ c0(self) == /\ pc[self] = "c0"
                                                                                                                                                                                       ck >>
                                                                                                                                                                  ELSE /\ IF CurOp(self).op = "waitnloop"
                                                                                                                                                                             THEN /\ IF data[CurOp(self).v] = 0 /\ ret[self] # 1
-                                                                                                                                                                                       THEN /\ /\ ndl' = [ndl EXCEPT ![self] = CurOp(self).dl]
+                                                                                                                                                                                       THEN /\ picked' = [picked EXCEPT ![self] = FALSE]
+                                                                                                                                                                                            /\ /\ ndl' = [ndl EXCEPT ![self] = CurOp(self).dl]
                                                                                                                                                                                                /\ stack' = [stack EXCEPT ![self] = << [ procedure |->  "wait_n",
                                                                                                                                                                                                                                         pc        |->  "c0",
                                                                                                                                                                                                                                         old       |->  old[self],
@@ -5273,7 +5285,8 @@ c0(self) == /\ pc[self] = "c0"
                                                                                                                                                                                        ELSE /\ ip' = [ip EXCEPT ![self] = ip[self] + 1]
                                                                                                                                                                                             /\ ret' = [ret EXCEPT ![self] = -1]
                                                                                                                                                                                             /\ pc' = [pc EXCEPT ![self] = "c0"]
-                                                                                                                                                                                            /\ UNCHANGED << stack, 
+                                                                                                                                                                                            /\ UNCHANGED << picked, 
+                                                                                                                                                                                                            stack, 
                                                                                                                                                                                                             ndl, 
                                                                                                                                                                                                             wcn, 
                                                                                                                                                                                                             old, 
@@ -5318,6 +5331,7 @@ c0(self) == /\ pc[self] = "c0"
                                                                                                                                                                                                             note, 
                                                                                                                                                                                                             nreg, 
                                                                                                                                                                                                             ret, 
+                                                                                                                                                                                                            picked, 
                                                                                                                                                                                                             muFreed, 
                                                                                                                                                                                                             refs, 
                                                                                                                                                                                                             dw, 
@@ -5346,6 +5360,7 @@ c0(self) == /\ pc[self] = "c0"
                                                                                                                                                                                                                        note, 
                                                                                                                                                                                                                        nreg, 
                                                                                                                                                                                                                        ret, 
+                                                                                                                                                                                                                       picked, 
                                                                                                                                                                                                                        muFreed, 
                                                                                                                                                                                                                        refs, 
                                                                                                                                                                                                                        dw, 
@@ -5368,6 +5383,7 @@ c0(self) == /\ pc[self] = "c0"
                                                                                                                                                                                                                                   note, 
                                                                                                                                                                                                                                   nreg, 
                                                                                                                                                                                                                                   ret, 
+                                                                                                                                                                                                                                  picked, 
                                                                                                                                                                                                                                   muFreed, 
                                                                                                                                                                                                                                   refs, 
                                                                                                                                                                                                                                   cdw, 
@@ -5388,6 +5404,7 @@ c0(self) == /\ pc[self] = "c0"
                                                                                                                                                                                                                                              note, 
                                                                                                                                                                                                                                              nreg, 
                                                                                                                                                                                                                                              ret, 
+                                                                                                                                                                                                                                             picked, 
                                                                                                                                                                                                                                              muFreed, 
                                                                                                                                                                                                                                              refs >>
                                                                                                                                                                                                                         ELSE /\ IF CurOp(self).op = "notify"
@@ -5398,10 +5415,12 @@ c0(self) == /\ pc[self] = "c0"
                                                                                                                                                                                                                                         /\ nww2' = [t \in Threads |-> IF t \in nreg2 THEN 0 ELSE nww2[t]]
                                                                                                                                                                                                                                         /\ nreg2' = {}
                                                                                                                                                                                                                                         /\ UNCHANGED << ret, 
+                                                                                                                                                                                                                                                        picked, 
                                                                                                                                                                                                                                                         muFreed, 
                                                                                                                                                                                                                                                         refs >>
                                                                                                                                                                                                                                    ELSE /\ IF CurOp(self).op = "decref"
                                                                                                                                                                                                                                               THEN /\ ip' = [ip EXCEPT ![self] = ip[self] + 1]
+                                                                                                                                                                                                                                                   /\ picked' = [picked EXCEPT ![self] = FALSE]
                                                                                                                                                                                                                                                    /\ ret' = [ret EXCEPT ![self] = IF refs = 1 THEN 1 ELSE 0]
                                                                                                                                                                                                                                                    /\ refs' = refs - 1
                                                                                                                                                                                                                                                    /\ UNCHANGED muFreed
@@ -5414,6 +5433,7 @@ c0(self) == /\ pc[self] = "c0"
                                                                                                                                                                                                                                                          ELSE /\ ip' = [ip EXCEPT ![self] = ip[self] + 1]
                                                                                                                                                                                                                                                               /\ UNCHANGED muFreed
                                                                                                                                                                                                                                                    /\ UNCHANGED << ret, 
+                                                                                                                                                                                                                                                                   picked, 
                                                                                                                                                                                                                                                                    refs >>
                                                                                                                                                                                                                                         /\ UNCHANGED << nww2, 
                                                                                                                                                                                                                                                         nreg2, 
@@ -5470,11 +5490,11 @@ c0(self) == /\ pc[self] = "c0"
                                              /\ UNCHANGED << sleeps, inlock, 
                                                              lt_m, old_m >>
             /\ UNCHANGED << word, queue, cvword, cvq, waiting, rmc, cvmu, wl, 
-                            wc, sc, nww, nwsem, now, sres, picked, nq, nwalive, 
-                            taint3, lt_l, clear, old_, zlo, zhi, wcnt, lw, 
-                            lt_u, old_u, tc, nwl, wtrs, wake, wty, sor, cor, 
-                            rmq_, late, sdl, scn, lt, rc, old_t, zl, tw, allr, 
-                            omw, fca, sorw >>
+                            wc, sc, nww, nwsem, now, sres, nq, nwalive, taint3, 
+                            lt_l, clear, old_, zlo, zhi, wcnt, lw, lt_u, old_u, 
+                            tc, nwl, wtrs, wake, wty, sor, cor, rmq_, late, 
+                            sdl, scn, lt, rc, old_t, zl, tw, allr, omw, fca, 
+                            sorw >>
 
 thr(self) == c0(self)
 
@@ -5533,6 +5553,7 @@ NoStuck == (~ENABLED NextU) => DoneOrLegit
 \* (the translation's own `Termination` is the property)
 \* ---- C04 / C11 : a wait that consumed a wake-up reports it as one ----
 AtClient(u) == pc[u] = "c0"
+\* (picked is the ghost of the LAST wait of the thread: every operation that writes ret clears it first)
 PickedReportsWake == \A u \in Threads : (AtClient(u) /\ picked[u] /\ ret[u] # -1) => ret[u] = 0
 \* ---- C05 ----
 \* a record of a two-object nsync_wait_n is registered with the note only while its call is in progress
